@@ -120,7 +120,7 @@ fn measure(spec: &Spec, l: usize, seed: u64, out: &mut TrialOut, cell: &str) {
 fn plan_sizes(cfg: &Cfg) -> (u64, u64, u64) {
     let nn = ns(cfg).len() as u64;
     let u = all_unary(3).len() as u64;
-    (nn * u * 3, nn * 8 * 3, cfg.tier.pick(400, 3000))
+    (nn * u * 3, nn * 8 * 3, cfg.tier.pick(600, 4000))
 }
 
 impl Monitor for C18 {
@@ -164,7 +164,28 @@ impl Monitor for C18 {
         } else {
             // chains
             let j = idx - a - b;
-            let spec = match j % 3 {
+            // a view that never delivers anything (Roc over a zero base holds for ever with nothing
+            // to hold): whatever sits above it, or uses it as moving average, must not pile up inputs
+            let never = Spec::un(Kind::Roc(3), Spec::Constant(0.0));
+            let spec = match j % 6 {
+                3 => Spec::un(catalogue::random_unary(&mut rng, 1, 24), never.clone()),
+                4 => {
+                    let mk = if rng.coin() { MaK::Pfe } else { MaK::Eft };
+                    let n = rng.usize(3, 16);
+                    if rng.coin() {
+                        Spec::ma(mk, n, Spec::Echo, never.clone())
+                    } else {
+                        Spec::ma(mk, n, never.clone(), Spec::leaf(Kind::Ema(3)))
+                    }
+                }
+                5 => {
+                    let k = BINS[((j / 6) % 4) as usize];
+                    if rng.coin() {
+                        Spec::bin(k, Spec::leaf(catalogue::random_unary(&mut rng, 1, 24)), never.clone())
+                    } else {
+                        Spec::bin(k, never.clone(), Spec::leaf(catalogue::random_unary(&mut rng, 1, 24)))
+                    }
+                }
                 0 => Spec::un(catalogue::random_unary(&mut rng, 1, 24), Spec::leaf(catalogue::random_unary(&mut rng, 1, 24))),
                 1 => {
                     let k = BINS[(j % 4) as usize];
@@ -189,7 +210,7 @@ impl Monitor for C18 {
         names
     }
     fn rule(&self) -> String {
-        "trial = one view (every kind x N grid), PFE/EFT with each moving average, or a random 2-3 level chain / combinator, driven by one of seven input modes (noise, constant, three levels, long flat stretches, saw-tooth, ever-rising ramp, ever-falling ramp); the harness' counting global allocator meters the bytes the instance owns after L, 4L and 16L updates (L >= 4096 and >= 8 windows; long runs to 16L = 4e6 in thorough); violation iff bytes(4L) > bytes(L) or bytes(16L) > bytes(L) (exact integer comparison). distinct = distinct (tree, L); non-trivial = both comparisons made".into()
+        "trial = one view (every kind x N grid), PFE/EFT with each moving average, or a random 2-3 level chain / combinator (a third of them with a component that never becomes ready: as inner view, as moving average, as one child of a combinator), driven by one of seven input modes (noise, constant, three levels, long flat stretches, saw-tooth, ever-rising ramp, ever-falling ramp); the harness' counting global allocator meters the bytes the instance owns after L, 4L and 16L updates (L >= 4096 and >= 8 windows; long runs to 16L = 4e6 in thorough); violation iff bytes(4L) > bytes(L) or bytes(16L) > bytes(L) (exact integer comparison). distinct = distinct (tree, L); non-trivial = both comparisons made".into()
     }
     fn assumptions(&self) -> Vec<String> {
         vec![
